@@ -194,6 +194,7 @@ inductive ModelKind where
   | wherenested (m r : Nat) | evalnested | alertnested (k : Nat)
   | stateduration (t : Int) | changedetect | derivative (nn : Bool) | windowc (p e : Nat) (fill : Bool)
   | alertthr (a : Int) (sco : Bool)
+  | statecountfn (m : Nat) | statedurationfn (m : Nat)
   | win2 (p e : Nat) (stage : String)     -- |window().periodCount(p).everyCount(e)|<batch receiver>
 
 def modelKind? (kind : String) (p1 p2 : Nat) : Option ModelKind :=
@@ -210,6 +211,8 @@ def modelKind? (kind : String) (p1 p2 : Nat) : Option ModelKind :=
   | "evalnested" => some .evalnested
   | "alertnested" => some (.alertnested p1)
   | "stateduration" => some (.stateduration p1)
+  | "statecountfn" => some (.statecountfn p1)
+  | "statedurationfn" => some (.statedurationfn p1)
   | "changedetect" => some .changedetect
   | "derivative" => some (.derivative false)
   | "derivativenn" => some (.derivative true)
@@ -217,7 +220,7 @@ def modelKind? (kind : String) (p1 p2 : Nat) : Option ModelKind :=
   | "windowcfill" => some (.windowc p1 p2 true)
   | "alertthr" => some (.alertthr p1 false)
   | "alertthrsco" => some (.alertthr p1 true)
-  | "winsample" | "winstatecount" | "winwhere" | "winchange" | "winderiv" | "winsum" | "wincount" => some (.win2 p1 p2 kind)
+  | "winsample" | "winstatecount" | "winwhere" | "winchange" | "winderiv" | "winsum" | "wincount" | "winstatecountfn" => some (.win2 p1 p2 kind)
   | _ => none
 
 def renderOuts (l : List (GroupID × Out)) : List String := l.map (fun go => s!"{go.2.key}|{go.2.time}|{go.2.proj}")
@@ -240,6 +243,8 @@ def runModel (k : ModelKind) (items : List (Item Pt)) : List String :=
   | .evalnested => renderOuts (runNode evalNestedNode 0 items)
   | .alertnested k => renderOuts (runNode (alertNodeShared (.gt k)) 0 items)
   | .stateduration t => renderOuts (runNode (stateDurationNode t) () items)
+  | .statecountfn m => renderOuts (runNode (stateCountFnNode m) () items)
+  | .statedurationfn m => renderOuts (runNode (stateDurationFnNode m) () items)
   | .changedetect => renderOuts (runNode changeDetectNode () items)
   | .derivative nn => renderOuts (runNode (derivativeNode nn) () items)
   | .windowc p e fill => renderOuts (runNode (windowCountNode p e fill) () items)
@@ -250,6 +255,7 @@ def runModel (k : ModelKind) (items : List (Item Pt)) : List String :=
     match stage with
     | "winsample" => renderOuts (runNode (sampleNodeB 2) () items2)
     | "winstatecount" => renderOuts (runNode (stateCountNodeB 3) () items2)
+    | "winstatecountfn" => renderOuts (runNode stateCountFnNodeB () items2)
     | "winwhere" => renderOuts (runNode whereCountNodeB () items2)
     | "winchange" => renderOuts (runNode changeDetectNodeB () items2)
     | "winderiv" => renderOuts (runNode derivativeNodeB () items2)
